@@ -622,7 +622,10 @@ func (m *Machine) draw0(t *rapid.T, g *GenOpts) Action {
 		}
 		if len(regs) > 0 && pct(t, 90, "registered-token?") {
 			b := m.Log[regs[uniform(t, len(regs), "which-token")]]
-			a.Lz, a.N = b.Lz, b.N
+			a.Lz, a.N, a.Neg = b.Lz, b.N, b.Neg
+			if a.Neg {
+				a.Amount = []string{"32", "31", "64"}[uniform(t, 3, "nstamt")]
+			}
 		}
 		if a.Mode > 0 {
 			// the follow-up operations aim at a position that exists: an earlier accepted deposit
@@ -634,7 +637,7 @@ func (m *Machine) draw0(t *rapid.T, g *GenOpts) Action {
 			}
 			if len(deps) > 0 && pct(t, 90, "existing-position?") {
 				b := m.Log[deps[uniform(t, len(deps), "which-deposit")]]
-				a.Lz, a.N, a.Actor = b.Lz, b.N, b.Actor
+				a.Lz, a.N, a.Actor, a.Neg = b.Lz, b.N, b.Actor, b.Neg
 				a.Amount = []string{"1", b.Amount}[uniform(t, 2, "part-or-all")]
 			}
 		}
@@ -642,6 +645,7 @@ func (m *Machine) draw0(t *rapid.T, g *GenOpts) Action {
 		a.Lz = []uint64{101, 102}[uniform(t, 2, "lz")]
 		if g.WideChains && pct(t, 50, "new-chain?") {
 			a.Lz = []uint64{103, 104, 105}[uniform(t, 3, "lz2")]
+			a.Neg = pct(t, 30, "native-token?") // the native restaking token of that chain
 		}
 		a.N = uniform(t, 1000, "tok")
 		if pct(t, 15, "known-token-name?") {
